@@ -678,7 +678,7 @@ func (o *baseObject) _defineOwnProperty(name unistring.String, existingValue Val
 				goto Reject
 			}
 		}
-		if existing.accessor && descr.Value != nil || !existing.accessor && (getterObj != nil || setterObj != nil) {
+		if existing.accessor && (descr.Value != nil || descr.Writable != FLAG_NOT_SET) || !existing.accessor && (descr.Getter != nil || descr.Setter != nil) {
 			if !existing.configurable {
 				goto Reject
 			}
